@@ -42,15 +42,20 @@ func VerifC11AuthorizerLimits() {
 	vAssume(vAnd(maxFacts >= 0, maxFacts <= 50))
 	maxIter := vInt("maxIterations")
 	vAssume(vAnd(maxIter >= 0, maxIter <= 50))
-	opts := WithWorldOptions(datalog.WithMaxFacts(maxFacts), datalog.WithMaxIterations(maxIter), datalog.WithMaxDuration(30*time.Second))
+	// the limits are supplied in one option or spread over two: every one of them counts
+	opts := []AuthorizerOption{WithWorldOptions(datalog.WithMaxFacts(maxFacts), datalog.WithMaxIterations(maxIter), datalog.WithMaxDuration(30*time.Second))}
+	if vChoose("options", 2) == 1 {
+		vLabel("limits spread over two options")
+		opts = []AuthorizerOption{WithWorldOptions(datalog.WithMaxFacts(maxFacts)), WithWorldOptions(datalog.WithMaxIterations(maxIter), datalog.WithMaxDuration(30*time.Second))}
+	}
 	var a Authorizer
 	var err error
 	if vChoose("entry-point", 2) == 0 {
 		vLabel("entry point AuthorizerFor")
-		a, err = g.tok.AuthorizerFor(WithSingularRootPublicKey(g.rootPub), opts)
+		a, err = g.tok.AuthorizerFor(WithSingularRootPublicKey(g.rootPub), opts...)
 	} else {
 		vLabel("entry point Authorizer")
-		a, err = g.tok.Authorizer(g.rootPub, opts)
+		a, err = g.tok.Authorizer(g.rootPub, opts...)
 	}
 	vAssert(err == nil, "C11.authorizer-created")
 	if err != nil {
